@@ -30,6 +30,8 @@ Alpha(Names, Targets) ==
    \cup { E(n, "g", 644, 2, 0, <<>>) : n \in { <<"a","p","x">>, <<"s","u","a","x">> } }
    \cup { E(<<"a","p","x">>, "f", 644, 2, 1, <<>>) }
    \cup { E(n, "l", 777, 4, 0, tg) : n \in { <<"a">>, <<"s","u">> }, tg \in { <<"","A">>, <<"","A","d","..">> } }
+   \* backslashes are ordinary characters of a name: a target or a name spelled with them is one segment
+   \cup { E(<<"a">>, "l", 777, 4, 0, <<"..\\v">>), E(<<"..\\v">>, "f", 644, 2, 1, <<>>) }
 AlphaQuick == Alpha(NamesQ, TargetsQ)
 AlphaThorough == Alpha(NamesT, TargetsT)
 
@@ -39,12 +41,15 @@ TargetsF == { <<"a">>, <<"s","a">>, <<"..","a">>, <<"t","a">>, <<"nowhere">> }
 AlphaFidelity ==
    { E(n, "f", m, t, c, <<>>) : n \in NamesF \ {<<"s","">>, <<"s","t","">>, <<"s">>}, m \in {644, 400}, t \in {2}, c \in {0, 1, 2} }
    \cup { E(n, "d", m, t, 0, <<>>) : n \in {<<"s","">>, <<"s">>, <<"s","t","">>, <<".","s","">>}, m \in {755, 500, 700}, t \in {3, 5} }
+   \cup { E(<<"a">>, "f", 644, 900, 1, <<>>), E(<<"s","">>, "d", 755, 900, 0, <<>>) }
    \cup { E(n, "l", 777, 4, 0, tg) : n \in {<<"b">>, <<"s","a">>, <<"s","l">>, <<"","a">>, <<"","","a">>}, tg \in TargetsF }
    \cup { E(<<"pax_global_header">>, "g", 644, 2, 0, <<>>), E(<<"a">>, "p", 644, 2, 0, <<>>), E(<<"b">>, "h", 644, 2, 0, <<"a">>) }
 AlphaFidelityQ ==
    { E(n, "f", m, 2, c, <<>>) : n \in { <<"a">>, <<"s","a">>, <<"","a">>, <<".","s","a">>, <<"s","t","a">>, <<"..n">> }, m \in {644, 400}, c \in {0, 2} }
    \cup { E(n, "d", m, 3, 0, <<>>) : n \in {<<"s","">>, <<"s">>, <<"s","t","">>}, m \in {755, 500} }
    \cup { E(<<"s","">>, "d", 700, 5, 0, <<>>) }
+   \* time 900 is the Unix epoch itself (an mtime field of zero)
+   \cup { E(<<"a">>, "f", 644, 900, 1, <<>>), E(<<"s","">>, "d", 755, 900, 0, <<>>) }
    \cup { E(n, "l", 777, 4, 0, tg) : n \in {<<"b">>, <<"s","l">>, <<"","","a">>, <<"s">>}, tg \in { <<"a">>, <<"..","a">>, <<"nowhere">> } }
    \cup { E(<<"pax_global_header">>, "g", 644, 2, 0, <<>>), E(<<"a">>, "p", 644, 2, 0, <<>>), E(<<"b">>, "h", 644, 2, 0, <<"a">>) }
 
